@@ -359,6 +359,10 @@ func (db *Backend) PutObject(
 		return result, err
 	}
 
+	if meta == nil {
+		// "The map containing meta may be nil"; MergeMetadata fills it.
+		meta = make(map[string]string)
+	}
 	err = gofakes3.MergeMetadata(db, bucketName, objectName, meta)
 	if err != nil {
 		return result, err
